@@ -1077,8 +1077,9 @@ def np_where(ex, c, *rest):
     if c.ndim != 1:
         raise Unsupported('np.where on nd arrays')
     meta = getattr(c, 'meta', None) or {}
-    if 'onehot_blocks' in meta:
-        M, d, S = meta['onehot_blocks']
+    hints = ex.__dict__.get('where_hints', [])
+    if 'onehot_blocks' in meta or hints:
+        M, d, S = meta['onehot_blocks'] if 'onehot_blocks' in meta else hints[0]
         i = ex.newvar('i', 'int')
         hit = tobool(c.elem((i,)))
         claim = z3.Implies(z3.And(i >= 0, i < tonum(S) * M), toz(hit) == (i % M == tonum(d(i / M))))
@@ -1146,7 +1147,7 @@ def rnd_choice(ex, a, size=None, **kw):
     ex.event('rng', 'choice', ex.where())
     if isinstance(a, WhereArr):
         c = a.cond
-        n = conc(c.shape[0])
+        n = ex.concretize(c.shape[0])
         v = ex.newvar('choice', 'int')
         if isinstance(n, int) and n <= 512:
             nonempty = z3.Or(*[toz(tobool(c.elem((j,)))) for j in range(n)]) if n else z3.BoolVal(False)
